@@ -120,15 +120,25 @@ class Walker(object):
             self.ctx.violation(clause, rec)
         return False
 
-    def cover_edges(self):
-        """every edge of the graph once, from the state reached along a BFS tree path"""
+    def cover_edges(self, stutter=False):
+        """every edge of the graph once, from the state reached along a BFS tree path.
+
+        stutter: a self-loop of the graph is an action that leaves the ABSTRACT state unchanged (an evaluation, a check, an
+        iteration) - exactly the calls after which an implementation may keep something (a cache, a memo).  No shortest-path
+        or bounded-depth enumeration orders such a call before a state-changing one by itself, so with stutter=True every
+        state-changing edge is executed a second time on a world on which one of the state's self-loops (rotating) was
+        executed first; both steps are judged like any other."""
+        self.stuttered = getattr(self, 'stuttered', 0)
+        turn = 0
         for ik in self.g.inits:
             seen = {ik}
             frontier = [(ik, self.a.new(self.g.state[ik]), [])]
             while frontier:
                 nxt = []
                 for k, world, hist in frontier:
-                    for label, tk in self.g.edges_from(k):
+                    outs = self.g.edges_from(k)
+                    loops = [(l, t) for l, t in outs if t == k] if stutter else []
+                    for label, tk in outs:
                         w = self.a.clone(world)
                         ok = self._do(w, hist, label, tk)
                         self.edges_covered.add((k, key_of(label), tk))
@@ -136,6 +146,13 @@ class Walker(object):
                         if ok and tk not in seen:
                             seen.add(tk)
                             nxt.append((tk, w, hist + [label]))
+                        if loops and tk != k:
+                            loop = loops[turn % len(loops)][0]
+                            turn += 1
+                            w2 = self.a.clone(world)
+                            if self._do(w2, hist, loop, k):
+                                self._do(w2, hist + [loop], label, tk)
+                                self.stuttered += 1
                 frontier = nxt
         return len(self.edges_covered)
 
